@@ -33,16 +33,19 @@ Example d2_obligation : exists aps q, backend_checks (cfg M_dram) d2_prog d2_ord
   In (OArg (CWin 1 F32 false) (CWin 1 F32 true)) (ctypes F32 (build_W d2_prog) (sigs_of d2_prog) q).
 Proof. eexists. eexists. split; [vm_compute; reflexivity|]. split; [left; reflexivity|]. vm_compute. auto 10. Qed.
 
-(* ---------------- D4: window of a window variable whose recorded src_buf is the intermediate window ---------- *)
+(* ---------------- former D4 (repaired): window of a window variable whose recorded src_buf is the intermediate
+   window.  The struct's const-ness now comes from the root buffer (_win_root), so the procedure is well-typed and
+   satisfies hyp_proc: the partial theorem covers it. *)
 Definition d4_prog : program :=
   [ {| p_args := [FNum 0 PR 0 (ShDense 2)];
        p_body := [SWin 1 0 2 0; SWin 2 1 1 1; SAssign 2 tt (EConst PR)] |} ].  (* dst = y[..]; w = dst[..] (src_buf dst); w[2] = 5.0 *)
 Definition d4_order : list nat := [0].
 
-Lemma d4_witness : exists aps q,
+Lemma window_of_window_welltyped : exists aps q,
   backend_checks (cfg M_dram) d4_prog d4_order = Ok aps /\ In (0, q) aps /\
-  cwt_const (ctypes F32 (build_W d4_prog) (sigs_of d4_prog) q) = false /\
-  In (OLval true) (ctypes F32 (build_W d4_prog) (sigs_of d4_prog) q).
+  hyp_proc F32 (sigs_of d4_prog) q = true /\
+  cwt (ctypes F32 (build_W d4_prog) (sigs_of d4_prog) q) = true /\
+  In (OLval false) (ctypes F32 (build_W d4_prog) (sigs_of d4_prog) q).
 Proof. eexists. eexists. split; [vm_compute; reflexivity|]. split; [left; reflexivity|]. vm_compute. auto 10. Qed.
 
 (* ---------------- D5: stale window flag on a call argument after set_window -------------------------------- *)
@@ -193,15 +196,4 @@ Proof.
   assert (q = q') as ->; [|assumption].
   vm_compute in H1. inversion H1; subst aps. clear H1 H1'.
   destruct H2 as [H2|[H2|[]]]; inversion H2; subst. destruct H2' as [H2'|[H2'|[]]]; inversion H2'; subst. reflexivity.
-Qed.
-
-Lemma const_refuted_window_of_window :
-  exists c prog order aps i q,
-    c_dflt c <> PR /\ backend_checks c prog order = Ok aps /\ In (i, q) aps /\
-    cwt_const (ctypes (c_dflt c) (build_W prog) (sigs_of prog) q) = false /\
-    
-    In (OLval true) (ctypes (c_dflt c) (build_W prog) (sigs_of prog) q).
-Proof.
-  destruct d4_witness as [aps [q [H1 [H2 [H3 H4]]]]].
-  exists (cfg M_dram), d4_prog, d4_order, aps, 0, q. repeat split; try assumption. discriminate.
 Qed.
